@@ -361,19 +361,19 @@ func c11EqStrs(a, b []string) bool {
 // ---------------------------------------------------------------- one delete case
 
 type c11Replay struct {
-	Query     string      `json:"query"`
-	Select    string      `json:"select_on_prior_state"`
-	Plan      string      `json:"plan,omitempty"`
-	Store     [][2]string `json:"prior_state"`
-	Mode      string      `json:"mode"`
-	B         int         `json:"batch_size"`
-	Verdicts  []string    `json:"keys_passing_the_filter"`
-	Selected  []string    `json:"keys_select_returns"`
-	Required  [][2]string `json:"required_final_state"`
-	Final     [][2]string `json:"final_state"`
-	Writes    []string    `json:"write_calls"`
-	Outcome   string      `json:"outcome"`
-	Panic     string      `json:"panic,omitempty"`
+	Query    string      `json:"query"`
+	Select   string      `json:"select_on_prior_state"`
+	Plan     string      `json:"plan,omitempty"`
+	Store    [][2]string `json:"prior_state"`
+	Mode     string      `json:"mode"`
+	B        int         `json:"batch_size"`
+	Verdicts []string    `json:"keys_passing_the_filter"`
+	Selected []string    `json:"keys_select_returns"`
+	Required [][2]string `json:"required_final_state"`
+	Final    [][2]string `json:"final_state"`
+	Writes   []string    `json:"write_calls"`
+	Outcome  string      `json:"outcome"`
+	Panic    string      `json:"panic,omitempty"`
 }
 
 var c11ClassCode = map[string]int{"ok": 0, "storage": 1, "exec": 2, "syntax": 3, "other": 4}
